@@ -1,7 +1,7 @@
 SPECIFICATION Spec
 CONSTANTS
-  Families = {"B", "C", "D"}
-  Lattice = FALSE
+  Families = {"R"}
+  Lattice = TRUE
 INVARIANTS
   Agree
   Emit
